@@ -38,16 +38,16 @@ DOC_ROWS = {
 CLASSES = ['c_fixed', 't_fixed', 'x_fixed', 'ct', 'cx', 'ctx', 'tx']
 
 
-def class_functions(repo):
+def class_functions(repo, extra_atoms=()):
   """(env, field -> truth table mask over atoms (c, t, x), init) of the unrestricted constructor path."""
-  env, outcomes, init = class_outcomes(repo)
+  env, outcomes, init = class_outcomes(repo, extra_atoms)
   general = [flds for H, flds in outcomes if H == env.TRUE]
   if not general:
     raise Undecided('GeoAssignments.__init__ has no unconditional path')
   return env, general[0], init
 
 
-def class_outcomes(repo):
+def class_outcomes(repo, extra_atoms=()):
   """[(row mask allowed on the path, field -> truth table mask)] per path of GeoAssignments.__init__."""
   cls = repo.cls('geoeligibility.GeoAssignments')
   init = cls.methods.get('__init__')
@@ -57,7 +57,7 @@ def class_outcomes(repo):
   if len(params) != 4:
     raise Undecided('GeoAssignments.__init__ signature changed: %s' % params)
   selfn = params[0]
-  env = boolset.Env(['c', 't', 'x'])
+  env = boolset.Env(['c', 't', 'x'] + list(extra_atoms))
   local = {params[1]: env.atom('c'), params[2]: env.atom('t'), params[3]: env.atom('x')}
   fields = {}
 
